@@ -3,7 +3,7 @@
 
 use std::{
     cell::Cell,
-    collections::{BTreeMap, HashMap, HashSet},
+    collections::{BTreeMap, BTreeSet, HashMap, HashSet},
 };
 
 use crate::index::{SymbolIndex, SymbolVec};
@@ -457,19 +457,23 @@ impl Choice {
                 .and_modify(|e| *e += 1)
                 .or_insert(1);
         }
-        // Update names to make them unique
-        name_counts
-            .iter()
-            .filter(|&(_, count)| *count > 1)
-            .for_each(|(name, _)| {
-                choices
-                    .iter_mut()
-                    .filter(|c| c.name == *name)
-                    .enumerate()
-                    .for_each(|(idx, c)| {
-                        c.name.push_str(&(idx + 1).to_string());
-                    });
-            });
+        // Update names to make them unique. A numbered name must not be the
+        // name of another choice (e.g. `Item` twice next to `Item1`).
+        let mut used: BTreeSet<String> = name_counts.keys().cloned().collect();
+        for (name, _) in name_counts.iter().filter(|&(_, count)| *count > 1) {
+            let mut idx = 0;
+            for c in choices.iter_mut().filter(|c| c.name == *name) {
+                let unique_name = loop {
+                    idx += 1;
+                    let candidate = format!("{name}{idx}");
+                    if !used.contains(&candidate) {
+                        break candidate;
+                    }
+                };
+                used.insert(unique_name.clone());
+                c.name = unique_name;
+            }
+        }
     }
 }
 
